@@ -494,6 +494,9 @@ func (d decoder) name(s *cryptobyte.String) (string, error) {
 
 func (d decoder) nameLabels(s *cryptobyte.String) ([]string, error) {
 	var labels []string
+	// RFC 1035 section 2.3.4: a name is limited to 255 octets. Enforcing
+	// it also bounds the walk when compression pointers form a loop.
+	size := 1
 	for {
 		for !s.Empty() && (*s)[0]&0xc0 == 0xc0 { // pointer
 			current := uintptr(unsafe.Pointer(&(*s)[0]))
@@ -514,6 +517,9 @@ func (d decoder) nameLabels(s *cryptobyte.String) ([]string, error) {
 		}
 		if len(name) == 0 {
 			break
+		}
+		if size += 1 + len(name); size > 255 {
+			return nil, ErrDecodeError
 		}
 		labels = append(labels, string(name))
 	}
